@@ -79,7 +79,9 @@ def checkMessage (c : Cli) (buf : List Nat) : Cli × Bool :=
   let n := buf.length
   let b2 := buf.getD 2 0
   let t3 (c : Cli) : Cli := { c with nextT3 := c.now + c.p.t3 * 1000 }
-  if b2 &&& 1 == 0 then
+  -- an APDU is at least the six octets of the APCI; anything shorter closes the connection
+  if n < 6 then (c, false)
+  else if b2 &&& 1 == 0 then
     let c := if !c.t2Trigger then { c with t2Trigger := true, lastConf := some c.now } else c
     if n < 7 then (c, false)
     else
